@@ -64,6 +64,15 @@ type Contract struct {
 	NoAutoNonNil bool
 }
 
+// ghostSorts: declared ghost fields (name -> SMT sort); undeclared ones are Int.
+var ghostSorts = map[string]string{}
+
+// ghostInits: type string -> (ghost name, SMT value) for fresh allocations.
+var ghostInits = map[string][][2]string{}
+
+// globalFacts: package path -> facts about its package-level variables.
+var globalFacts = map[string][]*Clause{}
+
 func hash8(s string) string {
 	h := sha256.Sum256([]byte(s))
 	return hex.EncodeToString(h[:4])
@@ -210,6 +219,27 @@ func parseContracts(path, pkgPath string, external bool) ([]*Contract, map[strin
 			}
 			cur = &Contract{Key: key, File: path, Line: i + 1, External: external, Pkg: pkgPath, Preds: preds, RecvNonNil: true}
 			out = append(out, cur)
+		case "ghostinit":
+			// ghostinit <type string> <ghost name> <smt value>: value of the
+			// ghost field of a freshly allocated object of that type
+			if len(f) >= 4 {
+				ghostInits[f[1]] = append(ghostInits[f[1]], [2]string{f[2], strings.TrimSpace(rest(3))})
+			}
+		case "assume_global":
+			// a fact about package-level variables, assumed at the entry of
+			// every function of this package (trusted: established by package
+			// initialisation and never invalidated)
+			txt := rest(1)
+			e, err := parser.ParseExpr(txt)
+			if err != nil {
+				return nil, nil, fmt.Errorf("%s:%d: %v in assume_global", path, i+1, err)
+			}
+			globalFacts[pkgPath] = append(globalFacts[pkgPath], &Clause{Kind: "assume_global", Text: txt, Expr: e, File: path, Line: i + 1})
+		case "ghostdecl":
+			// ghostdecl name Sort   (file level): a ghost field of objects
+			if len(f) >= 3 {
+				ghostSorts[f[1]] = strings.TrimSpace(rest(2))
+			}
 		case "pred":
 			// pred name(a, b) = expr
 			txt := rest(1)
